@@ -10,7 +10,7 @@ T6 = {
  "agent6-C01-nfc-only-with-combining-marks": ("C01", "the same code in two canonically equivalent spellings without any combining mark (KELVIN SIGN vs K, ANGSTROM SIGN, Hangul jamo)",
    "C01 code-pairs (KELVIN SIGN pair): same-code-agree", "reported", ""),
  "agent6-C02-inorder-shared-default-dict": ("C02", "the server delivers phase k+1 before phase k (a plaintext parked in the reorder buffer) while another wormhole of the process, or the dilate stream, reaches that number",
-   "C02 sched-*-reorder*: authentic-messages / instance-isolation", "@C02", ""),
+   "C02 single-tamper (drop / phase / side operations): authentic-messages (own plaintext delivered as the peer's)", "reported", ""),
  "agent6-C03-backlog-falsy-empty-message": ("C03", "an empty message b'' waiting in the backlog when get_message() is called late",
    "C03 late-reader-3msgs-3gets: prefix", PRE, "the late reader's second message is the empty message"),
  "agent6-C04-json-nfc-normalised": ("C04", "a text message or file name that is not NFC-normalised (decomposed accents, singletons, conjoining jamo)",
